@@ -20,12 +20,25 @@
 (*             invariant per class so that every failing class is reported.       *)
 (*   "closed"  the same with the closed form that only needs cardinalities        *)
 (*             (checked equal to the explicit form in "agree" mode), for larger N *)
+(*   "orbits"  candidates up to a renaming of the nodes, for suffrages too large  *)
+(*             for "cands": one representative per profile (number of expelled    *)
+(*             nodes, votes for the claimed fact, votes for the other fact,       *)
+(*             signer family, stage), placed adversarially - the voteproofs for A *)
+(*             vote from the lowest node upwards and expel the highest nodes, the *)
+(*             voteproofs for B vote from the highest node downwards and expel    *)
+(*             the lowest - so that for every two profiles the table holds the    *)
+(*             pair with the FEWEST common signers (OrbitRepresents and           *)
+(*             OrbitOverlapMinimal, checked in "agree" mode). Binding A as for    *)
+(*             "cands": the harness builds and validates every representative and *)
+(*             agreement is evaluated over the REAL verdicts; this is where the   *)
+(*             threshold arithmetic separates (n-k)*t/100 from n-k and k<=f from  *)
+(*             k>f (n=5: f=1, n=7: f=2, n=10: f=3), which n<=4 cannot.            *)
 (* Tally!Result / Tally!Req are the C01/C02 definitions (instantiated).           *)
 EXTENDS Integers, FiniteSets, Sequences, TLC, Json
 
 CONSTANTS N,        \* suffrage size; nodes are 1..N
           T10,      \* threshold * 10 (670 = 67.0 %)
-          Mode,     \* "cands" | "agree" | "closed"
+          Mode,     \* "cands" | "agree" | "closed" | "orbits"
           Fams,     \* expel-signer families explored
           Muts      \* structural mutations explored in "cands" mode
 
@@ -145,6 +158,24 @@ CandsOf(fams, muts, vv) ==
                ELSE {})
          : b \in Bases(fams, vv)}
 
+(* ---- orbit representatives ("orbits" mode) ---- *)
+(* position p of side "lo" is node p, of side "hi" node N+1-p (an involution) *)
+Pos(side, p) == IF side = "lo" THEN p ELSE N + 1 - p
+SideOf(X) == IF X = "A" THEN "lo" ELSE "hi"
+(* side claims X: positions 1..a vote X, a+1..a+b vote the other fact, the last k positions are expelled *)
+(* (a+b > N-k: expelled nodes voted; such candidates must be rejected)                                  *)
+OrbitCand(X, k, a, b, fam, st) ==
+  LET side == SideOf(X)
+      Y == IF X = "A" THEN "B" ELSE "A"
+  IN [votes |-> [v \in Node |-> LET p == Pos(side, v) IN IF p <= a THEN X ELSE IF p <= a + b THEN Y ELSE NoVote],
+      ex |-> {Pos(side, p) : p \in (N - k + 1)..N}, fam |-> fam,
+      kind |-> IF k = 0 THEN "plain" ELSE "expel", claim |-> X, mut |-> "none", stage |-> st]
+Profiles == {ab \in (1..N) \X (0..N) : ab[1] + ab[2] <= N}
+OrbitsOf(fams, k) ==
+  LET ff == IF k = 0 THEN {CHOOSE f \in fams : TRUE} ELSE fams
+      init == {OrbitCand(X, k, ab[1], ab[2], fam, "INIT") : X \in {"A", "B"}, ab \in Profiles, fam \in ff}
+  IN init \cup {[o EXCEPT !.stage = "ACCEPT"] : o \in {x \in init : Near(x)}}
+
 OutC == ToJson([n |-> N, t10 |-> T10, f |-> F,
                 votes |-> [i \in 1..N |-> c.votes[i]],
                 ex |-> [i \in 1..N |-> IF i \in c.ex THEN 1 ELSE 0],
@@ -182,6 +213,18 @@ AgreeExpelBeyondF == Go => \A fam \in Fams : ~(  (Ex("A", F + 1, N, fam) /\ Ex("
 ClosedMatchesExplicit == Go => \A fam \in Fams, X \in {"A", "B"}, E \in SUBSET Node :
                             ClosedVP(X, E, fam) = Accepted(Best(X, E, fam))
 
+(* the orbit table is enough: whatever voteproof for X expelling E is accepted, the representative with *)
+(* the same profile is accepted (and conversely), and no placement of two voteproofs has fewer common   *)
+(* signers than the two representatives                                                                 *)
+OrbitRepresents == Go => \A fam \in Fams, X \in {"A", "B"}, E \in SUBSET Node :
+   S(X) \ E # {} =>
+      Accepted(Best(X, E, fam)) = Accepted(OrbitCand(X, Cardinality(E), Cardinality(S(X) \ E), 0, fam, "INIT"))
+OrbitOverlapMinimal == Go => \A E1 \in SUBSET Node, E2 \in SUBSET Node :
+   LET va == S("A") \ E1   vb == S("B") \ E2
+       ra == Voters(OrbitCand("A", Cardinality(E1), Cardinality(va), 0, "all", "INIT"))
+       rb == Voters(OrbitCand("B", Cardinality(E2), Cardinality(vb), 0, "all", "INIT"))
+   IN Cardinality(ra \cap rb) <= Cardinality(va \cap vb)
+
 ---------------------------------------------------------------------------------
 Dummy == [votes |-> [v \in Node |-> NoVote], ex |-> {}, fam |-> "all", kind |-> "plain", claim |-> "DRAW",
           mut |-> "none", stage |-> "INIT"]
@@ -196,11 +239,18 @@ InitAgree == /\ c = Dummy /\ step = "" /\ phase = "start"
              /\ sg \in [Node -> SUBSET {"A", "B"}]
              /\ \A v \in Node \ byz : Cardinality(sg[v]) <= 1      \* honest: at most one fact per stage point
 NextAgree == phase = "start" /\ phase' = "go" /\ UNCHANGED <<c, byz, sg, step>>
-Init == IF Mode = "cands" THEN InitCands ELSE InitAgree
-Next == IF Mode = "cands" THEN NextCands ELSE NextAgree
+(* "orbits": the cheap initial states choose the number of expelled nodes *)
+InitOrbits == /\ \E k \in 0..(N - 1) : c = [Dummy EXCEPT !.ex = (N - k + 1)..N]
+              /\ byz = {} /\ sg = [v \in Node |-> {}] /\ phase = "start" /\ step = ""
+NextOrbits == /\ phase = "start" /\ phase' = "go"
+              /\ c' \in OrbitsOf(Fams, Cardinality(c.ex))
+              /\ UNCHANGED <<byz, sg>>
+              /\ step' = OutC'
+Init == CASE Mode = "cands" -> InitCands [] Mode = "orbits" -> InitOrbits [] OTHER -> InitAgree
+Next == CASE Mode = "cands" -> NextCands [] Mode = "orbits" -> NextOrbits [] OTHER -> NextAgree
 Spec == Init /\ [][Next]_vars
 (* sanity of the transcription on the candidates *)
-AcceptedImpliesWellFormed == (Mode = "cands" /\ Go) =>
+AcceptedImpliesWellFormed == (Mode \in {"cands", "orbits"} /\ Go) =>
    (Accepted(c) => /\ Voters(c) \cap c.ex = {}
                    /\ (c.claim # "DRAW" /\ c.kind # "stuck" => Count(c)[FactNo(c.claim)] >= Need(c)))
 =============================================================================
